@@ -32,5 +32,17 @@ s = open(p).read()
 b, e = "<!-- SEEDED-TABLE-BEGIN -->", "<!-- SEEDED-TABLE-END -->"
 if b in s:
     s = s[:s.index(b) + len(b)] + "\n" + text + s[s.index(e):]
-    open(p, "w").write(s)
+# findings table from known_findings.json
+import re
+ft = "| property | status | commit | what failed |\n|---|---|---|---|\n"
+for f in json.load(open(os.path.join(V, "known_findings.json")))["findings"]:
+    t = re.sub(r"^fixed: property=\S+ ", "", f["text"])
+    t = re.sub(r"^[0-9a-f]{7} ", "", t)
+    if len(t) > 230:
+        t = t[:227] + "..."
+    ft += f"| {f['property']} | {f['status']} | {f.get('commit', '-')} | {t} |\n"
+b2, e2 = "<!-- FINDINGS-TABLE-BEGIN -->", "<!-- FINDINGS-TABLE-END -->"
+if b2 in s:
+    s = s[:s.index(b2) + len(b2)] + "\n" + ft + s[s.index(e2):]
+open(p, "w").write(s)
 print(len(rows), "mutants")
